@@ -259,6 +259,10 @@ impl UnixStr {
         let other_ptr = other.as_ptr();
         let other_len = other.len();
         loop {
+            // Check before reading, `other` has no terminator and may be empty
+            if it == other_len {
+                return it;
+            }
             unsafe {
                 let a_val = slf_ptr.add(it).read();
                 let b_val = other_ptr.add(it).read();
@@ -268,9 +272,6 @@ impl UnixStr {
                 }
                 // Equal continue
                 it += 1;
-            }
-            if it == other_len {
-                return it;
             }
         }
     }
